@@ -10,8 +10,11 @@ EXTENDS TraceBase, DnsNameOps
 
 vars == <<l>>
 Init == l = 1
+\* The events are independent of each other, so a result the oracle does not allow does not stop the validation:
+\* it is reported as <<"BAD", line>> and the check turns every BAD line into a violation (all of them in one pass).
+Judge(ok) == IF ok THEN TRUE ELSE PrintT(<<"BAD", l>>)
 EvName == /\ IsEv("Name")
-          /\ Allowed(AbsClass(Ev.cells, Ev.cut), Ev.res, Ev.name, Ev.end)
+          /\ Judge(Allowed(AbsClass(Ev.cells, Ev.cut), Ev.res, Ev.name, Ev.end))
 EvReset == IsEv("Reset")
 Next == EvName \/ EvReset
 Spec == Init /\ [][Next]_vars
